@@ -1,7 +1,7 @@
 SPECIFICATION GSpec
 CONSTANTS
   Params = {"p1", "p2"}
-  Mod2 = {}
+  Mod2 = {"p2"}
   Vals = {"a", "b"}
   Errs = {"e1", "e2"}
   Invs = {"i1"}
@@ -10,15 +10,17 @@ CONSTANTS
   InitStamps = {0}
   NoDefault = {"p1"}
   InitScopeSets = {{}, {"all"}}
-  HiddenChoices = {{}}
-  ActScopes = {"all"}
+  HiddenChoices = {{}, {"p2"}}
+  ActScopes = {"all", "mod"}
+  RepKinds = {}
   MaxNow = 6
-  Depth = 3
+  Depth = 2
   FullParams = {"p1"}
   LiteParams = {"p2"}
   GenConns = {"c2"}
   GenDefaults = {"a"}
   GenLiteOmit = {2}
+  GenExtra = {"At", "Nest", "Deact", "Untouched"}
 CONSTRAINT Bound
 INVARIANT EmitMax
 CHECK_DEADLOCK FALSE
